@@ -1299,13 +1299,15 @@ func call(n *node) {
 		} else {
 			arg = c0.typ.arg[i]
 		}
+		// In a call with ellipsis, only the last argument is passed unchanged.
+		isSpread := hasVariadicArgs && i == len(child)-1
 		switch {
 		case isBinCall(c, c.scope):
 			// Handle nested function calls: pass returned values as arguments.
 			numOut := c.child[0].typ.rtype.NumOut()
 			for j := 0; j < numOut; j++ {
 				ind := c.findex + j
-				if hasVariadicArgs || !isInterfaceSrc(arg) || isEmptyInterface(arg) {
+				if isSpread || !isInterfaceSrc(arg) || isEmptyInterface(arg) {
 					values = append(values, func(f *frame) reflect.Value { return f.data[ind] })
 					continue
 				}
@@ -1318,7 +1320,7 @@ func call(n *node) {
 			cc0 := c.child[0]
 			for j := range cc0.typ.ret {
 				ind := c.findex + j
-				if hasVariadicArgs || !isInterfaceSrc(arg) || isEmptyInterface(arg) {
+				if isSpread || !isInterfaceSrc(arg) || isEmptyInterface(arg) {
 					values = append(values, func(f *frame) reflect.Value { return f.data[ind] })
 					continue
 				}
@@ -1332,7 +1334,7 @@ func call(n *node) {
 				convertLiteralValue(c, argType)
 			}
 			switch {
-			case hasVariadicArgs:
+			case isSpread:
 				values = append(values, genValue(c))
 			case isInterfaceSrc(arg) && (!isEmptyInterface(arg) || len(c.typ.method) > 0):
 				values = append(values, genValueInterface(c))
